@@ -7,11 +7,11 @@ import (
 
 type c06Closer struct {
 	*MemoryStore
-	mu       sync.Mutex
-	closes   int
+	mu          sync.Mutex
+	closes      int
 	doneAtClose int
-	finished *int
-	fmu      *sync.Mutex
+	finished    *int
+	fmu         *sync.Mutex
 }
 
 func (c *c06Closer) Close() error {
